@@ -811,6 +811,18 @@ def post(prop, tier, seed):
         engines = [("cross_build", lambda p, t, s: cross_build_engine(p, t, s))] + engines
     all_v, all_n, all_h = [], [], []
     t0 = time.time()
+    if prop in ("C14", "C16"):
+        # the native engine was also run in the target-feature build (check script); fold its numbers in
+        tfp = os.path.join(BUILD, "tmp", f"{prop}.tf.json")
+        if os.path.isfile(tfp):
+            try:
+                tf = json.load(open(tfp))
+                ev["coverage"]["target_feature_build"] = {"evaluations": tf["coverage"].get("evaluations"), "violations": tf.get("violations"), "wall_s": tf.get("wall_s"),
+                                                          "what": "the same engine, same seed, in the simulator build with the host's SIMD target features enabled at compile time"}
+                ev["violations"] = ev.get("violations", 0) + (tf.get("violations") or 0)
+            except (OSError, ValueError, KeyError):
+                pass
+            os.remove(tfp)
     for name, fn in engines:
         try:
             cov, v, n, h = fn(prop, tier, seed)
